@@ -8,6 +8,7 @@
    Everything else of NewFont and of the Face queries is only explored by the fault-injection sweep. *)
 From TV Require Import Model.Container Model.Glyf Model.CmapBuild Spec.Container Spec.Glyf Proofs.Container Proofs.Glyf.
 From TV Require Import Model.TableIndex Proofs.TableIndex Model.AatLookup Proofs.AatLookup.
+From TV Require Import Model.KernFd Proofs.KernFd.
 
 (* opening ANY byte string as a font or collection returns loaders or an error: no panic, no fuel exhaustion
    (the model has no fuelled loop: every loop is bounded by a count read from the file) *)
@@ -121,6 +122,59 @@ Theorem aat_class_total : forall l g, lookup_wf l -> 0 <= g < 65536 -> total (aa
 Proof. exact aat_class_total_lemma. Qed.
 Print Assumptions aat_class_total.
 
+(* kerning pairs, 'kern' / 'kerx' format 0 (font.kernPair): for EVERY list of records (sorted or not) and every pair of
+   glyph ids (any integers: GID is uint32), the binary search never indexes out of range and ends within len + 1
+   iterations *)
+Theorem kern0_pair_total : forall recs l r, total (kern0_pair recs l r).
+Proof. exact kern0_pair_total_lemma. Qed.
+Print Assumptions kern0_pair_total.
+
+(* ... and it answers 0 or the value of a record with exactly that key *)
+Theorem kern0_pair_sound : forall recs l r v, kern0_pair recs l r = Ok v ->
+  v = 0 \/ exists e, In e recs /\ k_value e = v /\ record_key e = pair_key l r.
+Proof. exact kern0_pair_sound_lemma. Qed.
+Print Assumptions kern0_pair_sound.
+
+(* format 2 (Kern2.KernPair, after the repair C09-F85): for EVERY pair of class tables (absent, or any AAT lookup
+   value), every kerning start offset >= 0 (an unsigned field), every subtable content and every pair of glyph ids, the
+   two class look-ups and the 16-bit read at Left + Right never index out of range *)
+Theorem kern2_pair_total : forall k l r,
+  match k2_left k with Some L => lookup_wf L | None => True end ->
+  match k2_right k with Some R => lookup_wf R | None => True end ->
+  0 <= k2_start k -> total (kern2_pair k l r).
+Proof. exact kern2_pair_total_lemma. Qed.
+Print Assumptions kern2_pair_total.
+
+(* format 3: for EVERY value the generated parser can return (array lengths = the header counts, elements bytes:
+   kern3_shape) and every pair of glyph ids >= 0, sanitizing (KernData3.parseEnd) then querying (Kern3.KernPair, which
+   indexes four arrays without a check, "sanitized during parsing") never indexes out of range *)
+Theorem kern3_query_total : forall k l r, kern3_shape k = true -> 0 <= l -> 0 <= r -> total (kern3_query k l r).
+Proof. exact kern3_query_total_lemma. Qed.
+Print Assumptions kern3_query_total.
+
+(* 'kerx' format 6: the read at row + column is guarded for all class values *)
+Theorem kern6_pair_total : forall ks l r, 0 <= l -> 0 <= r -> total (kern6_pair ks l r).
+Proof. exact kern6_pair_total_lemma. Qed.
+Print Assumptions kern6_pair_total.
+
+(* CFF / CFF2 FDSelect format 3 and 4 (fdSelect3.fontDictIndex, fdSelect4.fontDictIndex32): for EVERY list of ranges
+   (unsorted, overlapping, empty), every sentinel and every glyph id, the bisection never indexes out of range and ends
+   within len + 1 iterations -- the ranges are not validated when the table is parsed *)
+Theorem fdselect3_total : forall ranges sentinel x, total (fdselect3 ranges sentinel x).
+Proof. exact fdselect3_total_lemma. Qed.
+Print Assumptions fdselect3_total.
+
+(* the font dict index it returns is below extent(), which the parser compares with the number of Font DICTs: LoadGlyph
+   indexes localSubrs / fonts with it *)
+Theorem fdselect3_in_extent : forall ranges sentinel x v n,
+  fd3_extent ranges <= n -> fdselect3 ranges sentinel x = Ok (Some v) -> v < n.
+Proof. exact fdselect3_in_extent_lemma. Qed.
+Print Assumptions fdselect3_in_extent.
+
+Theorem fdselect0_total : forall fds g, 0 <= g -> total (fdselect0 fds g).
+Proof. exact fdselect0_total_lemma. Qed.
+Print Assumptions fdselect0_total.
+
 (* ---- non-vacuity ---- *)
 Definition ex_bytes_okb (l : list Z) : bool := forallb (fun b => (0 <=? b) && (b <? 256)) l.
 Lemma ex_bytes_ok l : ex_bytes_okb l = true -> bytes_ok l.
@@ -191,3 +245,20 @@ Example ex_aat_classes :
   /\ aat_class (L8 65534 [7; 8; 9]) 65535 = Ok None
   /\ aat_class (L8 3 [7; 8; 9]) 5 = Ok (Some 9).
 Proof. split; [cbn; lia|]. repeat split; vm_compute; reflexivity. Qed.
+
+(* kerning: a pair found, a pair not found; format 2 with a null right class table; format 3 accepted and queried, and
+   rejected when an index equals kernValueCount; FDSelect 3 with a sentinel below the glyph (errGlyph, no hang) *)
+Example ex_kern_lookups :
+  kern0_pair [mkKrec 1 2 (-50); mkKrec 1 5 30; mkKrec 4 0 7] 1 5 = Ok 30
+  /\ kern0_pair [mkKrec 1 2 (-50); mkKrec 1 5 30; mkKrec 4 0 7] 1 3 = Ok 0
+  /\ kern2_pair (mkKern2 (Some (L8 3 [4; 6])) None 4 [0;0;0;0; 255;206; 0;9]) 3 3 = Ok 0
+  /\ kern2_pair (mkKern2 (Some (L8 3 [4; 6])) (Some (L8 3 [0; 0])) 4 [0;0;0;0; 255;206; 0;9]) 3 3 = Ok (-50)
+  /\ kern3_shape (mkKern3 1 1 1 [ -50 ] [0; 0; 0; 0] [0; 0; 0; 0] [0]) = true
+  /\ kern3_query (mkKern3 1 1 1 [ -50 ] [0; 0; 0; 0] [0; 0; 0; 0] [0]) 1 2 = Ok (Some (-50))
+  /\ kern3_query (mkKern3 1 1 1 [ -50 ] [0; 0; 0; 0] [0; 0; 0; 0] [1]) 1 2 = Ok None
+  /\ kern6_pair [1; 2; 3] 1 1 = Ok 3 /\ kern6_pair [1; 2; 3] 2 1 = Ok 0
+  /\ fdselect3 [mkRange3 0 1; mkRange3 4 0] 9 5 = Ok (Some 0)
+  /\ fdselect3 [mkRange3 0 1; mkRange3 4 0] 1 5 = Ok None
+  /\ fd3_extent [mkRange3 0 1; mkRange3 4 0] = 2
+  /\ fdselect0 [0; 1; 1] 2 = Ok (Some 1) /\ fdselect0 [0; 1; 1] 3 = Ok None.
+Proof. vm_compute. repeat split. Qed.
